@@ -102,6 +102,33 @@ class SpinFlip:
         return dict(rho=(x + x.conj().T) / 2)
 
 
+def _wootters_oracle(rho):
+    """concurrence from the eigenvalues of rho (sy(x)sy) rho^* (sy(x)sy) (a non-Hermitian product; general eigenvalue routine), written independently of the code under proof"""
+    sy = np.array([[0, -1j], [1j, 0]]); YY = np.kron(sy, sy)
+    ev = np.linalg.eigvals(rho @ YY @ rho.conj() @ YY)
+    ls = np.sort(np.sqrt(np.maximum(ev.real, 0)))[::-1]
+    return float(max(0.0, ls[0] - ls[1] - ls[2] - ls[3]))
+
+
+def _two_qubit_states(rng, n=24):
+    for t in range(n):
+        x = _rc(rng, 4, int(rng.integers(1, 5))); r = x @ x.conj().T; r = r / np.trace(r).real
+        if t % 4 == 3:
+            r = 0.5 * r + 0.5 * np.eye(4) / 4        # closer to separable (concurrence 0 region)
+        yield r
+
+
+def _spin_semantic(self, rng, _):
+    for rho in _two_qubit_states(rng):
+        c = float(eof.get_concurrence_2qubit(rho)); ref = _wootters_oracle(rho)
+        if abs(c - ref) > 1e-6:       # sqrt amplifies rounding near C = 0
+            return False, dict(function='get_concurrence_2qubit', rho=jsonable(rho), returned=c, oracle=ref)
+    return True, None
+
+
+SpinFlip.semantic = _spin_semantic
+
+
 class ConcPure:
     prop = PROP; name = 'get_concurrence_pure'; modules = [eof]
     targets = ['numqi.entangle.eof:get_concurrence_pure']
@@ -256,6 +283,26 @@ class ClosedForms:
         return dict(rho=dm(4), rho6=dm(6), psi23=ket(2, 3), psi32=ket(3, 2), psi33=ket(3, 3), psi13=ket(1, 3))
 
 
+def _closed_semantic(self, rng, _):
+    # end-to-end, no stubs: closed forms against the oracle concurrence / eigenvalues of the partial transpose / Schmidt coefficients computed here
+    h = lambda x: 0.0 if x <= 0 or x >= 1 else float(-x * math.log(x) - (1 - x) * math.log(1 - x))
+    for rho in _two_qubit_states(rng):
+        C = _wootters_oracle(rho); root = math.sqrt(max(0.0, 1 - C * C))
+        if abs(float(eof.get_eof_2qubit(rho)) - h((1 + root) / 2)) > 1e-5 or abs(float(meas.get_gme_2qubit(rho)) - (1 - root) / 2) > 1e-5:
+            return False, dict(function='get_eof_2qubit / get_gme_2qubit', rho=jsonable(rho), oracle_concurrence=C)
+        pt = rho.reshape(2, 2, 2, 2).transpose(0, 3, 2, 1).reshape(4, 4)
+        if abs(float(emisc.get_negativity(rho, (2, 2))) - (np.abs(np.linalg.eigvalsh(pt)).sum() - 1) / 2) > 1e-9:
+            return False, dict(function='get_negativity', rho=jsonable(rho))
+    for sh in [(2, 3), (3, 2), (3, 3), (1, 3), (2, 2)]:
+        for t in range(4):
+            x = _rc(rng, *sh); x = x / np.linalg.norm(x)
+            s2 = np.linalg.svd(x, compute_uv=False) ** 2; s2 = s2[s2 > 1e-10]
+            if abs(float(eof.get_eof_pure(x)) - float(-(s2 * np.log(s2)).sum())) > 1e-9:
+                return False, dict(function='get_eof_pure', psi=jsonable(x))
+    return True, None
+
+
+ClosedForms.semantic = _closed_semantic
 CONTRACTS = {'spin': SpinFlip(), 'pure': ConcPure(), 'closed': ClosedForms()}
 
 
